@@ -27,7 +27,7 @@ Obs(ln, T) ==
     /\ Chk("number of keep-alives sent", ln.updates = T.updates)
     /\ Chk("number of registrations at the pool", ln.connects = T.connects)
     /\ Chk("time", ln.now = T.now)
-    /\ Chk("goroutines left running", (~T.running /\ T.waitq = <<>>) => ln.goroutines <= 0)
+    /\ Chk("goroutines left running", (~T.running /\ T.waitq = <<>> /\ T.early = 0) => ln.goroutines <= 0)
 
 LifeStep(ln) ==
   LET a == ln.a IN
@@ -54,6 +54,15 @@ LifeStep(ln) ==
     [] ln.op = "Wait" ->
          /\ Chk("Wait returns what ended the loop", Len(L.waitq) > 0 /\ ln.r = Head(L.waitq))
          /\ Obs(ln, [L EXCEPT !.waitq = Tail(L.waitq)]) /\ L' = [L EXCEPT !.waitq = Tail(L.waitq)]
+    [] ln.op = "WaitEarly" ->      \* Wait entered while nothing has ended yet: it blocks until the (next) loop ends
+         \* (the driver watches it for one second, within which the loop may end)
+         LET T == SleepF([L EXCEPT !.early = L.early + 1], 1) IN
+         /\ Chk("Wait returned although no loop has ended / stayed blocked although one has",
+                L.waitq = <<>> /\ ln.r = (IF T.early > L.early THEN "blocked" ELSE "released"))
+         /\ Obs(ln, T) /\ L' = T
+    [] ln.op = "Collect" ->        \* what the callers that were already waiting have been handed since
+         /\ Chk("a caller waiting since before the loop ended was not released with the loop's result", ln.rs = L.got)
+         /\ Obs(ln, [L EXCEPT !.got = <<>>]) /\ L' = [L EXCEPT !.got = <<>>]
     [] ln.op = "Force" ->
          Obs(ln, ForceF(L)) /\ L' = ForceF(L)
 
